@@ -529,6 +529,8 @@ class CoordInterp:
             if name.endswith(("eigh", "eigvalsh", "svd", "norm", "eigvals")):
                 return self._conflict(f"{name.split('.')[-1]} of a matrix whose entries carry per-coordinate units: the spectrum mixes coordinates", e)
             return self._unknown(name, e)
+        if name in ("numpy.arange", "numpy.flatnonzero", "numpy.argsort", "numpy.nonzero", "numpy.unique"):
+            return CT("arr", (None,))
         if name in ("builtins.len", "builtins.range", "builtins.int", "builtins.print", "builtins.isinstance", "numpy.arange", "numpy.ones", "numpy.zeros", "numpy.empty", "numpy.linspace",
                     "numpy.linalg.matrix_rank", "scipy.optimize.bisect", "scipy.optimize.brentq", "scipy.optimize.brenth", "builtins.min", "builtins.max", "builtins.bool", "numpy.shape",
                     "numpy.any", "numpy.all", "numpy.argmax", "numpy.argmin", "numpy.argsort", "numpy.where"):
@@ -537,7 +539,9 @@ class CoordInterp:
             # callables handed to a root finder are analysed at their own call sites
             return INVC
         if name.startswith("numpy.random."):
-            return INVC
+            # draws with a size are index / noise vectors (one non-coordinate axis): u[idx] keeps the sample axis
+            has_size = any(k.arg == "size" for k in e.keywords) or (name.endswith((".choice", ".randint", ".permutation")) and len(e.args) >= 2) or name.endswith(".permutation")
+            return CT("arr", (None,)) if has_size else INVC
         if any(a.scaled for a in args):
             return self._unknown(f"call {name}", e)
         return INVC
